@@ -8,7 +8,7 @@ from ..cfg import CFG, Node, node_defs, reaching_defs
 from ..kinds import node_containing
 from ..model import AnalysisError, attr_chain, is_self_attr, norm, short, stores_in, walk_local
 from ..pmodel import ParserModel
-from ..report import Ctx
+from ..report import Ctx, SubCtx
 from ..vmodel import VisitorModel
 from .. import loops, scopewalk
 from .c15 import audit
@@ -68,6 +68,8 @@ def run(ctx: Ctx) -> None:
     cn = sorted({f for f, st_ in seen.get("current_namespace", []) if not (f in ("_setup_state", "_parse_extern", "_parse_class_decl") and isinstance(st_, ast.Assign) and isinstance(st_.value, ast.Attribute) and st_.value.attr == "namespace")})
     ctx.ob("R12.1", "parser:CxxParser|current_namespace writers", set(cn) <= {"_parse_namespace", "_pop_state"}, msg=f"current_namespace is written by {cn}", node=pm.cls, mod=mod, nontrivial=False)
 
+    if isinstance(ctx, SubCtx) and set(ctx._map) <= {"R12.1"}:
+        return  # evaluated for another property that shares only the rules above
     # ---------------------------------------------------------------- R12.2
     ctx.rule("R12.2", "top-level loop: locals live across iterations are only the pending doc text and the current token", minimum=1)
     cfg = pm.cfg("parse")
@@ -163,9 +165,11 @@ def run(ctx: Ctx) -> None:
     # consuming construction per doc value, the reset after every dispatch, and the trailing scan ending at the line end
     # or at a plain comment that ends the line (otherwise it walks into the next declaration's block)
     from . import c11
-    from ..report import SubCtx, run_shared
+    from ..report import run_shared
     t127 = "a doc comment is attributed once, reset after every dispatch, and the trailing scan does not reach the next declaration's comments (C11's rules)"
-    run_shared(ctx, c11.run, {"R11.1": ("R12.7", t127), "R11.2": ("R12.7", t127), "R11.5": ("R12.7", t127), "R11.7": ("R12.7", t127)})
+    run_shared(ctx, c11.run, {"R11.1": ("R12.7", t127), "R11.2": ("R12.7", t127), "R11.5": ("R12.7", t127), "R11.7": ("R12.7", t127), "R11.6": ("R12.7", t127)},
+               # (the finding already listed for C11 - the enumerator lookup in front of its value, D24 - stays keyed under C11 only)
+               {"R11.6|parser:CxxParser._parse_enumerator_list|tokens consumed after get_doxygen_after()"})
 
 
 def _reaches_forward(cfg: CFG, a: Node, b: Node, head: Node) -> bool:
